@@ -72,9 +72,31 @@ def gen_cases(ctx):
     return out
 
 
+def hist_cases():
+    """a predicate that raises because of the RUN's history (not because of the event): of several runs of one pattern
+    an earlier-created one raises while a later-created one must still be offered the event"""
+    B = G.blk
+    out = []
+    for kind3 in ("R", "S"):
+        for where in ("blk", "pre", "halt"):
+            blocks = [B([("deq", 1)], "R", 1), B([("deq", 2)], "RL", 1), B([("deq", 3)], kind3, 2), B([("deq", 4)], "R", 3)]
+            pre, halt = [], []
+            if where == "blk":
+                blocks[2]["preds"] = [("raisehist", 1, 3, ("deq", 3))]
+            elif where == "pre":
+                pre = [("raisehist", 1, 3, ("const", True))]
+            else:
+                halt = [("raisehist", 1, 3, ("deq", 5))]
+            p = G.pattern(1, blocks, pre, halt, False)
+            cfg = dict(phen=[(1, [p])], maxcache=0, idbase=1000)
+            for st in ([1, 2, 2, 1, 3, 4], [1, 2, 2, 1, 2, 3, 3, 4], [1, 1, 2, 2, 2, 3, 4], [1, 2, 2, 2, 1, 1, 3, 5, 4]):
+                out.append((cfg, [("local", e) for e in G.events(st)], 0))
+    return out
+
+
 def gen_cases0(ctx):
     rng = ctx.rng
-    cases = []
+    cases = hist_cases()
     shapes = G.shapes(3)
     for shape in shapes:
         for v in (0, 1, 2):
@@ -95,6 +117,11 @@ def gen_cases0(ctx):
             for i in range(len(ps)):
                 if rng.random() < 0.8:
                     ps[i], _ = inject(ps[i], rng.randint(0, 50), tss)
+                if rng.random() < 0.25:      # ... or raises because of what the run has accepted so far
+                    q = ps[i]
+                    bi = rng.randrange(len(q["blocks"]))
+                    pi = rng.randrange(len(q["blocks"][bi]["preds"]))
+                    q["blocks"][bi]["preds"][pi] = ("raisehist", rng.randint(0, 3), rng.randint(1, 3), q["blocks"][bi]["preds"][pi])
         cases.append((cfg, [("local", e) for e in G.events(G.rand_stream(rng, n))], tss[0]))
     return cases
 
@@ -106,6 +133,7 @@ def work(case):
     cfg_f = deraise_cfg(cfg)
     dec_f, rec_f = SD.make_decider(cfg_f)
     out, fail, nontrivial = [], None, False
+    diverged = False
     for k, op in enumerate(ops):
         try:
             o, lists = SD.apply_op(dec, rec, op)
@@ -140,7 +168,7 @@ def work(case):
                         detail=dict(got=got, expected=exp, active=act, expected_active=ref.active()))
         # same stream with the predicate returning False instead: identical up to and including the first raise,
         # except for the runs on which it raised
-        if k <= t_first:
+        if k <= t_first and not diverged:
             o_f, lists_f = SD.apply_op(dec_f, rec_f, op)
             if lists_f is not None and fail is None:
                 def strip(lst):
@@ -152,6 +180,8 @@ def work(case):
                     fail = dict(signature="other-runs-differ-from-false-variant", step=k,
                                 what="runs on which nothing raised were reported differently than when the predicate returns False",
                                 detail=dict(raise_variant=a, false_variant=b))
+        if raised:
+            diverged = True      # from here on the two variants legitimately differ on the runs that raised
     return out, nontrivial, fail
 
 
